@@ -14,10 +14,10 @@ impl Check for C04 {
     fn phases(&self, tier: Tier, b: f64) -> Vec<Phase> {
         let q = tier == Tier::Quick;
         vec![
-            Phase { name: "random tuples (MAC|MAC0, protected [built|wire], AAD, payload) through every MAC_structure-producing helper, with and without payload", cases: scale(if q { 6000 } else { 300000 }, b), exhaustive: false },
+            Phase { name: "random tuples (MAC|MAC0, protected [built|wire], AAD, payload) through every MAC_structure-producing helper, with and without payload", cases: scale(if q { 48000 } else { 300000 }, b), exhaustive: false },
             Phase { name: "length-class grid for AAD / payload (and the 16x16 product in thorough)", cases: if q { 32 } else { 32 + 256 }, exhaustive: true },
-            Phase { name: "messages decoded from non-canonical wire forms", cases: scale(if q { 8000 } else { 400000 }, b), exhaustive: false },
-            Phase { name: "adversarial near-collisions: every split of the same bytes between AAD and payload", cases: scale(if q { 2000 } else { 80000 }, b), exhaustive: false },
+            Phase { name: "messages decoded from non-canonical wire forms", cases: scale(if q { 64000 } else { 400000 }, b), exhaustive: false },
+            Phase { name: "adversarial near-collisions: every split of the same bytes between AAD and payload", cases: scale(if q { 16000 } else { 80000 }, b), exhaustive: false },
         ]
     }
     fn run_case(&self, ctx: &mut Ctx, phase: usize, idx: u64) {
